@@ -155,10 +155,25 @@ def listing(c, mapping):
     return list(c.keys())
 
 
+PRECALL = None      # optional callable run right before the container call
+POSTCALL = None     # (after operands were built) / right after it ended
+_OPERAND_OPS = frozenset(["update", "supdate", "ior", "iand", "isub", "ixor",
+                          "isdisjoint", "ctor"])
+
+
+def _pre():
+    if PRECALL is not None:
+        PRECALL()
+
+
 def apply(c, op, dom, impl, kind):
     """run op on container c; normalised outcome"""
     try:
-        r = _apply(c, op, dom, impl, kind)
+        try:
+            r = _apply(c, op, dom, impl, kind)
+        finally:
+            if POSTCALL is not None:
+                POSTCALL()
         # a C function that returns normally but leaves an exception set
         # makes it surface at one of the next C calls: flush it here, inside
         # the try, so that it is attributed to this operation
@@ -170,6 +185,8 @@ def apply(c, op, dom, impl, kind):
 
 def _apply(c, op, dom, impl, kind):
     name = op[0]
+    if PRECALL is not None and name not in _OPERAND_OPS:
+        PRECALL()
     if name == "set":
         c[K(dom, op[1])] = V(dom, op[2])
         return None
@@ -187,7 +204,9 @@ def _apply(c, op, dom, impl, kind):
     if name == "popitem":
         return c.popitem()
     if name == "update":
-        c.update(_pairs(dom, op[2], op[1], impl))
+        arg = _pairs(dom, op[2], op[1], impl)
+        _pre()
+        c.update(arg)
         return None
     if name == "clear":
         c.clear()
@@ -228,7 +247,9 @@ def _apply(c, op, dom, impl, kind):
     if name == "spop":
         return c.pop()
     if name == "supdate":
-        c.update(_operand(dom, op[2], op[1], impl))
+        arg = _operand(dom, op[2], op[1], impl)
+        _pre()
+        c.update(arg)
         return None
     if name in ("ior", "iand", "isub", "ixor"):
         if op[2] == "self":
@@ -236,6 +257,7 @@ def _apply(c, op, dom, impl, kind):
         else:
             other = _operand(dom, op[2], op[1], impl)
         before = c
+        _pre()
         if name == "ior":
             c |= other
         elif name == "iand":
@@ -250,7 +272,9 @@ def _apply(c, op, dom, impl, kind):
     if name == "sgetitem":
         return c[op[1]]
     if name == "isdisjoint":
-        return bool(c.isdisjoint(_operand(dom, op[2], op[1], impl)))
+        arg = _operand(dom, op[2], op[1], impl)
+        _pre()
+        return bool(c.isdisjoint(arg))
     if name == "ctor":
         # a new container of the same class built from an iterable; the
         # result is its listing
@@ -259,6 +283,7 @@ def _apply(c, op, dom, impl, kind):
             arg = _pairs(dom, op[2], op[1], impl)
         else:
             arg = _operand(dom, op[2], op[1], impl)
+        _pre()
         new = type(c)(arg)
         return listing(new, mapping)
     if name == "minKey":
